@@ -33,10 +33,11 @@ LEVEL_NOTE = "trusts the ~300-line reference tokenizer/evaluator; cases the spec
 DESIGN_REF = "DESIGN.md section 6, C13"
 
 DATA = {"s": "x,y", "n": 3, "arr": [3, 1, 3, 2], "sa": ["b", "a", "b"], "nest": [[1], [1], [2]], "o": {"k": "v"}, "o2": {"k": "w", "z": 1},
-        "t": True, "f": 1.5, "nul": None, "e": [], "mixed": [1, "1", 1.0, True, None, None], "b64": "aGVsbG8="}
+        "t": True, "f": 1.5, "nul": None, "e": [], "mixed": [1, "1", 1.0, True, None, None], "b64": "aGVsbG8=",
+        "flags": [True, 1, False, 0, True, 0, "1", "true"], "jt": ["[2]", [2], "{\"a\": 1}", {"a": 1}, "null", None, [2]]}
 CTX = {"Execution": {"Id": "E", "Input": {"q": 1}}, "State": {"Name": "S"}}
 STR_ALPHA = ["a", "b", " ", ",", "(", ")", "{}", "\\{", "\\}", "\\'", "\\\\", "[", "]", "^", "-", "x", "{", "}", "{0}", ".", "$", "ab"]
-PATHS = ["$.s", "$.n", "$.arr", "$.sa", "$.nest", "$.o", "$.o2", "$.t", "$.f", "$.nul", "$.e", "$.mixed", "$.b64", "$.missing", "$$.Execution.Id", "$.arr[1]"]
+PATHS = ["$.s", "$.n", "$.arr", "$.sa", "$.nest", "$.o", "$.o2", "$.t", "$.f", "$.nul", "$.e", "$.mixed", "$.b64", "$.missing", "$$.Execution.Id", "$.arr[1]", "$.flags", "$.jt"]
 FUNCS = {k: v for k, v in I.ARITY.items()}
 
 
@@ -61,7 +62,7 @@ def gen_arg(r, depth, for_fn=None, pos=0):
         if kind == "jsonstr":
             return ("str", [r.choice(["\\{\"a\":1\\}", "[1,2]", "1", "\"s\"", "{bad", "null", "true"])])
         if kind == "arr":
-            return ("path", r.choice(["$.arr", "$.sa", "$.nest", "$.e", "$.mixed"])) if r.random() < 0.7 or depth <= 0 else \
+            return ("path", r.choice(["$.arr", "$.sa", "$.nest", "$.e", "$.mixed", "$.flags", "$.jt"])) if r.random() < 0.7 or depth <= 0 else \
                 ("call", "Array", [gen_arg(r, depth - 1) for _ in range(r.randint(0, 3))])
         if kind == "int":
             return ("lit", r.choice(["0", "1", "2", "3", "-1", "7", "1000", "5"])) if r.random() < 0.8 else ("path", "$.n")
@@ -84,7 +85,8 @@ def gen_arg(r, depth, for_fn=None, pos=0):
         return ("path", r.choice(PATHS))
     if c < 0.9:
         return ("lit", r.choice(["0", "1", "2", "-1", "7", "1.5", "1000", "2.0"]))
-    return ("lit", r.choice(["null", "true", "false", "f12", "1e3"]))
+    # (the second half are ill-formed argument tokens, some of which happen to be JSON: all of them must be refused)
+    return ("lit", r.choice(["null", "true", "false", "f12", "1e3", '"abc"', "[]", "[7]", "{}", '{"k":1}', "abc", "1.2.3", "1_000", "nan", "True", "0x10"]))
 
 
 def gen_call(r, depth):
@@ -228,6 +230,13 @@ def compare_expr(ctx, ast, expr=None, tag="gen"):
         exp = ref_eval(expr)
     except (I.Unspec, R.Unspecified):
         ctx.count("unspecified")
+        # the value is not determined, but "never an arbitrary exception" still is
+        got = engine_eval(expr)
+        ctx.count("unspecified_checked_for_arbitrary_exceptions")
+        if got[0] == "EXC":
+            feats = features(ast) if ast else []
+            ctx.violation("intrinsic-raises-arbitrary-exception", dict(expr=expr, expected=["unspecified value or a States.* failure"], engine=list(got), features=feats, family=tag),
+                          classify_expr(ast, expr, ("unspecified",), got, feats))
         return
     got = engine_eval(expr)
     ctx.count("expressions_compared")
@@ -442,7 +451,7 @@ def corpus_digest(seed, n):
         ast = gen_call(r, 2)
         # aim at hash-ordered containers
         if k % 3 == 0:
-            ast = ("call", "ArrayUnique", [("path", r.choice(["$.arr", "$.sa", "$.mixed"]))])
+            ast = ("call", "ArrayUnique", [("path", r.choice(["$.arr", "$.sa", "$.mixed", "$.flags", "$.jt"]))])
         if k % 3 == 1:
             ast = ("call", "ArrayUnique", [("call", "Array", [gen_str(r, 2) for _ in range(r.randint(2, 6))])])
         if "UUID" in render(ast) or "MathRandom" in render(ast):
